@@ -36,6 +36,7 @@ type mcCfg struct {
 	pauses     int      // the client may wait for the writer before its request number 2..pauses+1 (free choice)
 	empty      bool     // the channel has no keys before the concurrent phase (default: keys a and b)
 	liveLimit  int      // LiveTransitionMaxPublicationLimit (0: default)
+	singleFlight bool   // Config.UseSingleFlight (map state / stream reads coalesced)
 }
 
 func mcModeName(m MapMode) string {
@@ -58,6 +59,9 @@ func (c mcCfg) name() string {
 	}
 	if c.liveLimit > 0 {
 		kind += fmt.Sprintf("-livelimit%d", c.liveLimit)
+	}
+	if c.singleFlight {
+		kind += "-singleflight"
 	}
 	return fmt.Sprintf("%s/%s/s%d/pg%d/filter%v/pre-%s/w-%s/p%d", kind, mcModeName(c.mode), c.streamSize, c.page, c.filter, strings.Join(c.pre, "."), strings.Join(c.ops, "."), c.pauses)
 }
@@ -153,6 +157,10 @@ func mcVariants(tier string) []vsched.Variant {
 	add(mcCfg{mode: P, page: 1, recover: true, pre: w("pa"), ops: w("sx.pb"), pauses: 1}, 1)
 	add(mcCfg{mode: P, page: 1, recover: true, pre: w("pa"), ops: w("sx"), pauses: 1}, 1)
 	add(mcCfg{mode: R, page: 1, recover: true, ops: w("kx.pa"), pauses: 1}, 1)
+	// the same trimmed-stream scenarios with UseSingleFlight (reads go through the single-flight group)
+	add(mcCfg{mode: P, streamSize: 2, page: 1, recover: true, singleFlight: true, pre: w("pa"), ops: w("pb.pa"), pauses: 1}, 1)
+	add(mcCfg{mode: P, streamSize: 2, page: 1, recover: true, singleFlight: true, pre: w("ra.pb.pb"), ops: w("pb"), pauses: 1}, 1)
+	add(mcCfg{mode: P, streamSize: 2, page: 1, singleFlight: true, ops: w("pa.pb.pa"), pauses: 2}, 2)
 	// recovery join from further behind than LiveTransitionMaxPublicationLimit (2), with and without
 	// a tags filter that withholds part of the missed window (key b): the read window is truncated,
 	// so the join must be refused or deliver everything admitted up to the position it reports
@@ -170,7 +178,7 @@ func mcVariants(tier string) []vsched.Variant {
 func init() {
 	vsched.Register(&vsched.Harness{
 		Name: "mapconverge", Props: []string{"C22"}, Kind: "sched",
-		Doc: "real Node + Memory map broker (cleanup goroutines running, virtual clock); pre-state {a, b}; ONE client thread following the map subscription protocol through protocol.SubscribeRequest commands (state pages with the frozen first-page offset -> stream pages -> live, or recovery join from a saved position; page size 1-2 forced through MapChannelOptions; after an error reply it unsubscribes and subscribes once more from scratch), optionally waiting for the writer before its request number k (free choice); ONE writer thread doing <= 3 of {pa, pb: publish key a / b, ra: remove a, cl: clear, kx: virtual time past KeyTTL (expiry sweep), sx: virtual time past StreamTTL}; StreamSize 2 / 100, LiveTransitionMaxPublicationLimit default / 2 (recovery joins from 2-4 changes behind), modes ephemeral / recoverable / persistent, tags filter on/off (key a admitted, key b withheld); " +
+		Doc: "real Node + Memory map broker (cleanup goroutines running, virtual clock); pre-state {a, b}; ONE client thread following the map subscription protocol through protocol.SubscribeRequest commands (state pages with the frozen first-page offset -> stream pages -> live, or recovery join from a saved position; page size 1-2 forced through MapChannelOptions; after an error reply it unsubscribes and subscribes once more from scratch), optionally waiting for the writer before its request number k (free choice); ONE writer thread doing <= 3 of {pa, pb: publish key a / b, ra: remove a, cl: clear, kx: virtual time past KeyTTL (expiry sweep), sx: virtual time past StreamTTL}; StreamSize 2 / 100, UseSingleFlight off / on, LiveTransitionMaxPublicationLimit default / 2 (recovery joins from 2-4 changes behind), modes ephemeral / recoverable / persistent, tags filter on/off (key a admitted, key b withheld); " +
 			"quick: deviation bound 1; thorough: bound 2 for six variants, bound 1 for the others; " +
 			"quiescence = both threads done, system idle, then one presence tick with ClientChannelPositionCheckDelay elapsed (the periodic position check is the mechanism that tells a live client about a Clear); " +
 			"oracle at quiescence: the map the client holds (folded from the frames it was sent) equals Node.MapStateRead restricted to admitted keys, or the client was told (error 112 / insufficient-state or state-invalidated unsubscribe / disconnect); for a recovered=true join every admitted change recorded at the broker after the request position was delivered (all of them when the subscription is still open, those up to the last delivered offset when it was ended)",
@@ -379,6 +387,7 @@ func mcBody(cfg mcCfg) func() {
 		n := vNewNode(func(c *Config) {
 			c.Map.GetMapChannelOptions = func(string) MapChannelOptions { return chOpts }
 			c.ClientChannelPositionCheckDelay = time.Second
+			c.UseSingleFlight = cfg.singleFlight
 		})
 		rec := &mcRecorder{}
 		n.SetMapBroker(mcNewBroker(n, rec))
